@@ -237,6 +237,13 @@ def R2_record(ctx):
         ctx.check(try_propagation(cb, up[0], ctm)["kind"] == "propagated" and try_propagation(cb, gc[0], ctm)["kind"] == "propagated", "cache:errors", "cache errors are not propagated", up[0].where())
     else:
         ctx.bad("cache:anchors", "expected one cache get and one update", cb.where())
+    # the cache key is the (speed, grade) pair rounded to the nearest step of the configured precision: two inputs on different
+    # steps never share an entry (inputs inside one step do — that is the cache's documented resolution)
+    tp = F.bodies.get("routee_compass_core::util::cache_policy::float_cache_policy::to_precision")
+    if tp is not None:
+        trt = clean(Terms(tp).return_term())
+        okq = trt[0] == "cast" and trt[2][0] == "call" and trt[2][1] == "f64::round" and trt[2][2][0][0] == "bin" and trt[2][2][0][1] == "Mul" and ("arg", 1) in (trt[2][2][0][2], trt[2][2][0][3]) and any(x_[0] == "call" and x_[1] == "f64::powi" and x_[2] == (("const", "f64", "10.0"), ("arg", 2)) for x_ in (trt[2][2][0][2], trt[2][2][0][3]))
+        ctx.check(okq, "cache:key-rounded-to-nearest-step", "the cache key is not round(value * 10^precision): %s" % short(trt)[:120], tp.where(), detail="(value * 10^precision).round() as i64")
     for p_ in tree:
         tb = F.bodies[p_]
         ttm = Terms(tb)
